@@ -74,6 +74,7 @@ var kindTypes = map[string]reflect.Type{
 	"pt":    reflect.TypeOf((*int64)(nil)),
 	"sl":    reflect.TypeOf([]int32(nil)),
 	"arr":   reflect.TypeOf([3]int16{}),
+	"mp":    reflect.TypeOf(map[string]int(nil)),
 }
 
 func kindType(k string) reflect.Type {
@@ -124,6 +125,13 @@ func fromInt(k string, v int) reflect.Value {
 		if v == 0 {
 			return reflect.ValueOf(stKind{})
 		}
+		// partially zero structs: gob omits zero fields, so a decoder that reuses memory must have cleared it
+		switch v % 3 {
+		case 1:
+			return reflect.ValueOf(stKind{A: v})
+		case 2:
+			return reflect.ValueOf(stKind{B: fmt.Sprint(v)})
+		}
 		return reflect.ValueOf(stKind{A: v, B: fmt.Sprint(v)})
 	case "pt":
 		if v == 0 {
@@ -140,6 +148,11 @@ func fromInt(k string, v int) reflect.Value {
 		return reflect.ValueOf([3]int16{int16(v), int16(v), int16(v)})
 	case "cc":
 		return reflect.ValueOf(ccKind{v})
+	case "mp":
+		if v == 0 {
+			return reflect.ValueOf(map[string]int(nil))
+		}
+		return reflect.ValueOf(map[string]int{fmt.Sprintf("k%d", v): v})
 	}
 	panic("unknown kind " + k)
 }
@@ -180,7 +193,19 @@ func toInt(k string, v reflect.Value) int {
 		if s.A == 0 && s.B == "" {
 			return 0
 		}
-		if s.B != fmt.Sprint(s.A) {
+		switch {
+		case s.B == "":
+			if s.A%3 != 1 {
+				return -999
+			}
+			return s.A
+		case s.A == 0:
+			if atoi(s.B)%3 != 2 {
+				return -999
+			}
+			return atoi(s.B)
+		}
+		if s.B != fmt.Sprint(s.A) || s.A%3 != 0 {
 			return -999
 		}
 		return s.A
@@ -199,6 +224,21 @@ func toInt(k string, v reflect.Value) int {
 		return int(v.Index(0).Int())
 	case "cc":
 		return v.Interface().(ccKind).V
+	case "mp":
+		m := v.Interface().(map[string]int)
+		if len(m) == 0 {
+			return 0
+		}
+		if len(m) != 1 {
+			return -999
+		}
+		for k, x := range m {
+			if k != fmt.Sprintf("k%d", x) {
+				return -999
+			}
+			return x
+		}
+		return -999
 	case "arr":
 		a := v.Interface().([3]int16)
 		if a[0] != a[1] || a[1] != a[2] {
